@@ -24,7 +24,7 @@ def run(ck: Check):
                "{0.01, 0.1, 0.5} separately and together; optimum of ENERGY, LATENCY, EDP recorded; every returned mapping "
                "of a tolerant run is executed by Trace_Mapping. Non-trivial = tolerant run whose optimum differs from the "
                "exact optimum or that returns a different number of rows; distinct by (micro-spec, t, r).")
-    worlds = cc.small_worlds(ck, 3 if not thorough else 12, 600)
+    worlds = cc.small_worlds(ck, 2 if not thorough else 12, 600)
     combos = []
     tl = TOLS if thorough else [TOLS[ck.seed % 3], TOLS[(ck.seed + 1) % 3]]
     for t in tl:
